@@ -167,6 +167,8 @@ def main(argv=None):
             with open(replay, encoding="utf-8") as fp:
                 rdoc = json.load(fp)
             shards = [rdoc["_shard"]]
+            if hasattr(mod, "prepare_replay"):
+                shards = [mod.prepare_replay(dict(shards[0]))]
         else:
             shards = mod.plan(tier, seed)
         if shards and not replay and meta.get("reach", True):
